@@ -1606,7 +1606,7 @@ class C06(Prop):
         if not identity:
             big = [abs(v) for v in [g, c, c / g] + [x for x in exact if x == x] + [x for x in spec["data"] if x is not None]]
             if dt.kind == "f" and dt.itemsize == 4 and (max(big) > F4_MAX or abs(g) < 1.0 / F4_MAX):
-                return outcome({}, model, spec, undetermined=True, features=feats | {"data:binary32-range-not-judged"},
+                return outcome({}, {}, {}, undetermined=True, features=feats | {"data:binary32-range-not-judged"},
                                note="binary32 arithmetic may overflow / underflow: not judged")
             if int_line and dt.kind in "iu":
                 # a line given as Python ints on integer data: NumPy subtracts in the data's own integer type (wraps
@@ -1615,7 +1615,7 @@ class C06(Prop):
                 info = np.iinfo(dt)
                 ci = int(cal.intercept)
                 if not (info.min <= ci <= info.max) or any(not (info.min <= v - ci <= info.max) for v in exact):
-                    return outcome({}, model, spec, hyp=False,
+                    return outcome({}, {}, {}, hyp=False,
                                    features=feats | {"int-line-on-int-data:wraps-in-the-data-dtype(recorded only)"},
                                    note="Python-int line on integer data outside the dtype's range: not judged")
         try:
